@@ -318,17 +318,26 @@ def main(argv=None):
             # twice; if the same signature comes back both times the violation is confirmed with the unit as its replay.
             uidx = v.get('unit_idx')
             again_ok = uidx is not None
+            varying = False
             if again_ok:
-                for _ in range(2):
-                    if v['sig'] not in _unit_signatures(modname, uidx, units[uidx]):
-                        again_ok = False
-                        break
+                reruns = [set(_unit_signatures(modname, uidx, units[uidx]) or ()) for _ in range(2)]
+                again_ok = all(v['sig'] in r for r in reruns)
+                if not again_ok:
+                    # Round 9: the unit violates the property on every run, but not with the same signature each time: what the library
+                    # does there depends on something that is no input (object addresses reused by the allocator, seeded C13-23).
+                    # On a correct tree no run of the unit shows anything, so "every fresh run of this unit shows a violation that no
+                    # known finding covers" is reported as a violation of the unit, with that note.
+                    fresh = [{g for g in r if finding_for(findings, prop, g) is None} for r in reruns]
+                    if all(fresh):
+                        again_ok = varying = True
             if again_ok:
                 with open(path, 'w') as f:
                     json.dump({'property': prop, 'signature': v['sig'], 'what': v['what'], 'case': v['case'],
                                'reproduced_twice': False, 'unit': units[uidx], 'unit_reproduced_twice': True,
-                               'note': 'the recorded case alone does not reproduce it; the work unit (a fixed sequence of '
-                                       'executions in a fresh process) does: state survives from an earlier execution'},
+                               'note': ('every fresh run of the work unit violates the property, with signatures that vary from run to run: '
+                                        'the behaviour depends on something that is not an input' if varying else
+                                        'the recorded case alone does not reproduce it; the work unit (a fixed sequence of '
+                                        'executions in a fresh process) does: state survives from an earlier execution')},
                               f, indent=1, default=_json_default)
                 print(f"VIOLATION property={prop} replay={path}")
                 print(f"  signature: {v['sig']}\n  what: {v['what']}\n  (reproduced by re-running its work unit in a fresh process; "
